@@ -40,6 +40,16 @@ MUTANTS: list[tuple[str, str, str, str, str]] = [
 	('C15', 'load-forgets-end-line', 'rogw/tranp/implements/syntax/lark/entry.py', "			meta.end_line = entry_tree['source_map'][2]\n", "			meta.end_line = entry_tree['source_map'][0]\n"),
 	('C15', 'token-line-not-restored', 'rogw/tranp/implements/syntax/lark/entry.py', "			token.line = entry_token['source_map'][0]\n", ''),
 	('C15', 'meta-empty-left-true', 'rogw/tranp/implements/syntax/lark/entry.py', '			meta.empty = False\n', '			meta.empty = len(children) == 1\n'),
+	('C19', 'clone-shares-instance-table', 'rogw/tranp/lang/di.py', '		di.__instances = self.__instances.copy()\n', '		di.__instances = self.__instances\n'),
+	('C19', 'clone-shares-injector-table', 'rogw/tranp/lang/di.py', '		di.__injectors = self.__injectors.copy()\n', '		di.__injectors = self.__injectors\n'),
+	('C19', 'combine-left-wins', 'rogw/tranp/lang/di.py', '		di.__injectors = {**di.__injectors, **other.__injectors}\n', '		di.__injectors = {**other.__injectors, **di.__injectors}\n'),
+	('C19', 'combine-keeps-left-instances', 'rogw/tranp/lang/di.py', '			di.__instances.pop(symbol, None)\n', '			pass\n'),
+	('C19', 'unbind-keeps-instance', 'rogw/tranp/lang/di.py', '			if found_symbol in self.__instances:\n				del self.__instances[found_symbol]\n', ''),
+	('C19', 'resolve-does-not-memoise', 'rogw/tranp/lang/di.py', '		return self.__instances[found_symbol]\n', '		return self.__instances.pop(found_symbol)\n'),
+	('C19', 'invoke-skips-unresolvable-and-continues', 'rogw/tranp/lang/di.py', '			if not self.can_resolve(anno):\n				break\n', '			if not self.can_resolve(anno):\n				continue\n'),
+	('C19', 'lazy-clone-shares-definitions', 'rogw/tranp/lang/di.py', '		di.__definitions = self.__definitions.copy()\n', '		di.__definitions = self.__definitions\n'),
+	('C19', 'invoke-validates-first-call-only', 'rogw/tranp/lang/di.py', '		self.__assert_invoke(factory, annos, curried_args, *remain_args)\n		return factory', '		if len(self.__invocations) < 2:\n			self.__assert_invoke(factory, annos, curried_args, *remain_args)\n		return factory'),
+	('C19', 'lazy-unbind-keeps-definition', 'rogw/tranp/lang/di.py', '		if self.can_resolve(symbol):\n			self.__unregister(self.__symbolize(symbol))\n', ''),
 ]
 
 
